@@ -12,6 +12,7 @@ package PKGNAME
 
 import (
 	"fmt"
+	"runtime"
 	"sort"
 	"strings"
 	"sync"
@@ -39,7 +40,7 @@ const (
 type vfC10Step struct {
 	Kind     int
 	Hist     bool // publish with history (offset > 0)
-	Gate     int  // subscribe: 0 none, 1 AddPresence, 2 before the history read; unsubscribe: 0 none, 1 RemovePresence, 2 PublishLeave
+	Gate     int  // subscribe: 0 none, 1 AddPresence, 2 before the history read, 3 log window (buffer locked .. subscribe push); unsubscribe: 0 none, 1 RemovePresence, 2 PublishLeave
 	ByServer bool // unsubscribe through Client.Unsubscribe instead of a client command
 	Adv      int  // milliseconds
 }
@@ -58,6 +59,7 @@ type vfC10Case struct {
 	EmitJL       bool
 	PushJL       bool
 	End          int // 0 nothing, 1 Client.Disconnect, 2 transport close
+	LogGate      bool // server-side positioned subscribes may be parked at log entries (Debug/Trace log handler installed)
 	Steps        []vfC10Step
 }
 
@@ -73,7 +75,7 @@ func (s vfC10Step) String() string {
 	case vfC10JLeave:
 		return "leave"
 	case vfC10Sub:
-		return fmt.Sprintf("subscribe(gate=%s)", []string{"none", "AddPresence", "beforeHistory"}[s.Gate])
+		return fmt.Sprintf("subscribe(gate=%s)", []string{"none", "AddPresence", "beforeHistory", "logWindow+pub(hist)"}[s.Gate])
 	case vfC10Unsub:
 		return fmt.Sprintf("unsubscribe(gate=%s byServer=%v)", []string{"none", "RemovePresence", "PublishLeave"}[s.Gate], s.ByServer)
 	case vfC10RelOps:
@@ -91,8 +93,8 @@ func (c vfC10Case) String() string {
 	for i, s := range c.Steps {
 		st[i] = s.String()
 	}
-	return fmt.Sprintf("positioned=%v histMode=%d mode=%d uni=%v proto=%s batch{size=%d delay=%dms latest=%v} rwq=%v presence=%v emitJL=%v pushJL=%v end=%d steps=[%s]",
-		c.Positioned, c.HistMode, c.Mode, c.Uni, c.Proto, c.BatchSize, c.BatchDelayMs, c.Latest, c.RWQ, c.Presence, c.EmitJL, c.PushJL, c.End, strings.Join(st, " "))
+	return fmt.Sprintf("positioned=%v histMode=%d mode=%d uni=%v proto=%s batch{size=%d delay=%dms latest=%v} rwq=%v presence=%v emitJL=%v pushJL=%v end=%d logGate=%v steps=[%s]",
+		c.Positioned, c.HistMode, c.Mode, c.Uni, c.Proto, c.BatchSize, c.BatchDelayMs, c.Latest, c.RWQ, c.Presence, c.EmitJL, c.PushJL, c.End, c.LogGate, strings.Join(st, " "))
 }
 
 func vfC10Gen(rt *rapid.T) vfC10Case {
@@ -124,6 +126,9 @@ func vfC10Gen(rt *rapid.T) vfC10Case {
 	c.EmitJL = rapid.IntRange(0, 3).Draw(rt, "emitJL") > 0
 	c.PushJL = rapid.IntRange(0, 3).Draw(rt, "pushJL") > 0
 	c.End = rapid.SampledFrom([]int{0, 0, 1, 2}).Draw(rt, "end")
+	if c.Positioned && c.Mode != 0 {
+		c.LogGate = rapid.Bool().Draw(rt, "logGate")
+	}
 	n := rapid.IntRange(4, 26).Draw(rt, "nsteps")
 	kinds := []int{vfC10Pub, vfC10Pub, vfC10Pub, vfC10Pub, vfC10Pub, vfC10Pub, vfC10Pub, vfC10JJoin, vfC10JJoin, vfC10JLeave, vfC10JLeave,
 		vfC10Sub, vfC10Sub, vfC10Sub, vfC10Sub, vfC10Unsub, vfC10Unsub, vfC10Unsub, vfC10Unsub,
@@ -144,6 +149,9 @@ func vfC10Gen(rt *rapid.T) vfC10Case {
 			}
 		case vfC10Sub:
 			s.Gate = rapid.SampledFrom([]int{0, 0, 1, 1, 2}).Draw(rt, "sgate")
+			if c.LogGate && rapid.Bool().Draw(rt, "logWindow") {
+				s.Gate = 3
+			}
 		case vfC10Unsub:
 			s.Gate = rapid.SampledFrom([]int{0, 1, 1, 2, 2}).Draw(rt, "ugate")
 			s.ByServer = rapid.Bool().Draw(rt, "byServer")
@@ -294,6 +302,29 @@ func vfC10Run(t *testing.T, cs vfC10Case, out *vfC10Out, isKnown func(string) bo
 		}
 		var subjID atomic.Value
 		subjID.Store("")
+		// Log entries as gates (only when drawn): the handler returns at once unless a gate is armed.
+		var logArm1, logArm2 atomic.Bool
+		var gatesP atomic.Pointer[vfGates]
+		if cs.LogGate {
+			cfg.LogLevel = LogLevelTrace
+			cfg.LogHandler = func(e LogEntry) {
+				if !logArm1.Load() && !logArm2.Load() {
+					return
+				}
+				g := gatesP.Load()
+				if g == nil || e.Fields["client"] != subjID.Load().(string) {
+					return
+				}
+				switch {
+				case logArm1.Load() && e.Level == LogLevelDebug && e.Message == "client subscribed to channel" && e.Fields["channel"] == ch:
+					g.Pass("log1") // inside subscribeCmd: recovery buffer locked, subscription not yet committed
+				case logArm2.Load() && e.Level == LogLevelTrace && e.Message == "-out->":
+					if p, _ := e.Fields["push"].(string); strings.Contains(p, `"subscribe"`) && strings.Contains(p, `"`+ch+`"`) {
+						g.Pass("log2") // inside Client.Subscribe: committed, subscribe push not yet encoded / enqueued
+					}
+				}
+			}
+		}
 		w, err := vfNewWorld(cfg, func(w *vfWorld) {
 			w.node.OnTransportWrite(func(c *Client, e TransportWriteEvent) bool {
 				if e.FrameType == protocol.FrameTypePushPublication || e.FrameType == protocol.FrameTypePushJoin || e.FrameType == protocol.FrameTypePushLeave {
@@ -320,6 +351,12 @@ func vfC10Run(t *testing.T, cs vfC10Case, out *vfC10Out, isKnown func(string) bo
 			return "infra: " + err.Error()
 		}
 		defer w.Close()
+		gatesP.Store(w.Gates)
+		defer func() { // log gates must be open before the node shuts down
+			logArm1.Store(false)
+			logArm2.Store(false)
+			w.Gates.ReleaseAll()
+		}()
 		w.broker.Hook = func(op, phase, hch string) error {
 			if hch != ch || phase != "before" {
 				return nil
@@ -453,6 +490,9 @@ func vfC10Run(t *testing.T, cs vfC10Case, out *vfC10Out, isKnown func(string) bo
 			return cl
 		}
 		subscribeGates := func(s vfC10Step) []string {
+			if s.Gate == 3 && cs.Mode == 0 {
+				s.Gate = 1
+			}
 			switch s.Gate {
 			case 1:
 				if cs.Presence {
@@ -572,6 +612,11 @@ func vfC10Run(t *testing.T, cs vfC10Case, out *vfC10Out, isKnown func(string) bo
 					}()
 				} else {
 					o := subjOpts(tag)
+					logWindow := s.Gate == 3 && cs.LogGate && cs.Positioned
+					if logWindow {
+						logArm1.Store(true)
+						w.Gates.Arm("log1", 1)
+					}
 					go func() {
 						err := conn.Client.Subscribe(ch, func(so *SubscribeOptions) { *so = o })
 						m := mark()
@@ -581,6 +626,55 @@ func vfC10Run(t *testing.T, cs vfC10Case, out *vfC10Out, isKnown func(string) bo
 						prods[ownJoin] = &vfC10Prod{kind: "join", phase: vfC10PhEst, lag: lag, endSeq: m}
 						subBusy.Store(false)
 					}()
+					if logWindow {
+						vfSettle()
+						logArm1.Store(false)
+						w.Gates.Disarm("log1")
+						if w.Gates.Waiting("log1") > 0 {
+							// The subscribe holds the locked recovery buffer. A publication with offset now blocks on that
+							// mutex (not durably): no vfSettle / sleep until the subscribe was released.
+							out.labels = append(out.labels, "pub_inside_log_window_of_server_side_subscribe")
+							out.nontrivial = true
+							var before uint64
+							if r, err := w.node.History(ch, WithHistoryFilter(HistoryFilter{Limit: 0})); err == nil {
+								before = r.Offset
+							}
+							pubN++
+							key := fmt.Sprintf("pub:%d", pubN)
+							data := []byte(fmt.Sprintf(`{"n":%d}`, pubN))
+							var pubDone atomic.Bool
+							var pubMark atomic.Int64
+							go func() {
+								_, _ = w.node.Publish(ch, data, WithHistory(20, 300*time.Second))
+								pubMark.Store(mark())
+								pubDone.Store(true)
+							}()
+							for i := 0; i < 50000; i++ { // bounded: until the publication is in the stream, i.e. about to be broadcast
+								if r, err := w.node.History(ch, WithHistoryFilter(HistoryFilter{Limit: 0})); err == nil && r.Offset > before {
+									break
+								}
+								runtime.Gosched()
+							}
+							for i := 0; i < 300; i++ {
+								runtime.Gosched()
+							}
+							logArm2.Store(true)
+							w.Gates.Arm("log2", 1)
+							w.Gates.Release("log1")
+							for i := 0; i < 50000 && w.Gates.Waiting("log2") == 0 && subBusy.Load(); i++ {
+								runtime.Gosched()
+							}
+							for i := 0; i < 5000 && !pubDone.Load(); i++ { // a correct server keeps the publication blocked here
+								runtime.Gosched()
+							}
+							logArm2.Store(false)
+							w.Gates.Disarm("log2")
+							for w.Gates.Release("log2") {
+							}
+							vfSettle()
+							prods[key] = &vfC10Prod{kind: "pub", hist: true, phase: vfC10PhSub, lag: lag, endSeq: pubMark.Load()}
+						}
+					}
 				}
 				afterLaunch(gates...)
 			case vfC10Unsub:
